@@ -60,7 +60,7 @@ theorem byte_zero : byte 0 = 0 := rfl
 theorem sum8_fileHdr (g : Guid) (ckh ckf : UInt8) (t a : Nat) (ext : Bool) (total st : Nat) :
     sum8 (fileHdr g ckh ckf t a ext total st) = sum8 (fileHdr g 0 0 t a ext total 0) + ckh + ckf + byte st := by
   unfold fileHdr
-  simp only [sum8_append, sum8_cons, sum8_nil, byte_zero]
+  simp only [v_sum8_append, v_sum8_cons, v_sum8_nil, byte_zero]
   apply UInt8.toNat_inj.mp
   simp only [UInt8.toNat_add, UInt8.toNat_zero]
   omega
